@@ -1196,6 +1196,7 @@ func c13Sort(p *core.Program, r *core.Report, t *types.Named) {
 			// loop variables: index (and value) objects of for/range statements
 			idxVars := map[types.Object]bool{}
 			valOf := map[types.Object]ast.Expr{} // range value variable -> ranged expression
+			keyOf := map[types.Object]types.Object{} // range value variable -> the key variable of the same range
 			ast.Inspect(b.Decl.Body, func(n ast.Node) bool {
 				switch v := n.(type) {
 				case *ast.ForStmt:
@@ -1210,6 +1211,9 @@ func c13Sort(p *core.Program, r *core.Report, t *types.Named) {
 					}
 					if id, ok := v.Value.(*ast.Ident); ok && id.Name != "_" {
 						valOf[binfo.ObjectOf(id)] = v.X
+						if kid, ok := v.Key.(*ast.Ident); ok && kid.Name != "_" {
+							keyOf[binfo.ObjectOf(id)] = binfo.ObjectOf(kid)
+						}
 					}
 				}
 				return true
@@ -1254,6 +1258,22 @@ func c13Sort(p *core.Program, r *core.Report, t *types.Named) {
 								if call, ok := ast.Unparen(v).(*ast.CallExpr); ok && len(call.Args) == 1 && isIdx(call.Args[0]) == io {
 									if sel, ok := call.Fun.(*ast.SelectorExpr); ok && strings.EqualFold(sel.Sel.Name, "get") {
 										build = true
+									}
+								}
+								// {i, v} with i, v the key and value of one range over the list's own table
+								// (cut to its size or not): v is the element at i
+								if vid, ok := ast.Unparen(v).(*ast.Ident); ok {
+									vo := binfo.ObjectOf(vid)
+									if src := valOf[vo]; src != nil && keyOf[vo] == io {
+										base := ast.Unparen(src)
+										if sl, ok := base.(*ast.SliceExpr); ok && sl.Low == nil {
+											base = ast.Unparen(sl.X)
+										}
+										if sel, ok := base.(*ast.SelectorExpr); ok && sel.Sel.Name == "table" {
+											if rid, ok := ast.Unparen(sel.X).(*ast.Ident); ok && rid.Name == recvName(b) {
+												build = true
+											}
+										}
 									}
 								}
 							}
